@@ -34,6 +34,9 @@ def fragB (es : List MEv) : Bool :=
   | none => false
   | some t => es.dropLast.all (fun ev => okEv ev && !isTermOp ev.type) && okEv t && isTermOp t.type && balanced es
 
+/-- an event with a defined encoding that neither ends a stream nor opens / closes a loop -/
+def neutralEv (ev : MEv) : Bool := okEv ev && !isTermOp ev.type && !(ev.type == mds_LP) && !(ev.type == mds_LPF)
+
 end Ctrmml.MdsRead
 
 namespace Ctrmml.MdsFile
@@ -43,5 +46,15 @@ open Ctrmml Ctrmml.Mds
 def fullPartialHyps (song : Song) (b : Built) : Bool :=
   decide ((song.tracks.map (·.1)).Pairwise (· < ·)) && decide (0 < b.trackList.length) &&
   (b.trackList.map (·.2) ++ b.conv.subList).all MdsRead.fragB && (b.trackStreams ++ b.subStreams).all (·.length < 65536)
+
+/-- the raw-opcode side condition on platform commands (`cmd`): the events a platform command
+injects have a defined encoding, do not end the stream and are no loop brackets (round 4) -/
+def platformFrag (d : DataInfo) : Bool :=
+  d.platform.all fun p => match p.2 with | some l => l.all MdsRead.neutralEv | none => true
+
+/-- the residual hypotheses of `C09_full_partial2` (the fragment is proved, round 4) -/
+def fullHyps (song : Song) (d : DataInfo) (b : Built) : Bool :=
+  decide ((song.tracks.map (·.1)).Pairwise (· < ·)) && decide (0 < b.trackList.length) && platformFrag d &&
+  (b.trackStreams ++ b.subStreams).all (·.length < 65536)
 
 end Ctrmml.MdsFile
